@@ -354,7 +354,8 @@ func (r *Reporter) Finish() int {
 		fmt.Printf("INCONCLUSIVE property=%s reason=evidence-marshal:%v\n", r.ID, err)
 		return 2
 	}
-	if err := os.WriteFile(filepath.Join(root, "evidence", r.ID+".json"), b, 0o644); err != nil {
+	// (a replay writes next to the evidence of the last real run, not over it)
+	if err := os.WriteFile(filepath.Join(root, "evidence", r.ID+os.Getenv("VERIF_EVIDENCE_SUFFIX")+".json"), b, 0o644); err != nil {
 		fmt.Printf("INCONCLUSIVE property=%s reason=evidence-write:%v\n", r.ID, err)
 		return 2
 	}
